@@ -408,9 +408,14 @@ def pdom_link_callback(ctx, prog):
         ctx.ok(R, "link-callback")
 
 
+def data_swap(ctx, prog):
+    from .c11 import data_swap as ds
+    ds(ctx, prog, "C14.DATA-swap")
+
+
 for _f, _id in ((sign_invalid_children, "C14.SIGN-invalid-children"), (prov_edge_owner, "C14.PROV-edge-owner"),
                 (guard_value, "C14.GUARD-value"), (rcb_swap, "C14.RCB-swap"), (dtab_latch, "C14.DTAB-latch"),
-                (pdom_sched, "C14.PDOM-sched"), (pdom_link_callback, "C14.PDOM-link-callback")):
+                (pdom_sched, "C14.PDOM-sched"), (pdom_link_callback, "C14.PDOM-link-callback"), (data_swap, "C14.DATA-swap")):
     _f.rule_id = _id
 
-RULES = [sign_invalid_children, prov_edge_owner, guard_value, rcb_swap, dtab_latch, pdom_sched, pdom_link_callback]
+RULES = [sign_invalid_children, prov_edge_owner, guard_value, rcb_swap, dtab_latch, pdom_sched, pdom_link_callback, data_swap]
